@@ -209,7 +209,7 @@ def run(ctx):
                 progs.append("const xs: any[] = []; for (let k = 0; k < %d; k++) xs.push(k);\nlet r; try { r = 'v' + (%s); } catch (e) { r = 'caught:' + (e && (e as any).name); } String(r).slice(0, 40)" % (n, it.replace("MUT", mut)))
                 meta.append(("mutating-callback", "%s / %s n=%d" % (it[:50], mut, n)))
     for nm, src in DEEP.items():
-        for d in ((2000, 40000) if ctx.tier == "quick" else (2000, 40000, 300000)):
+        for d in ((2000, 40000) if ctx.tier == "quick" else (2000, 40000, 100000)):
             setup, expr = re.sub(r"\bD\b", str(d), src).split(" ;;; ")
             progs.append("%s;\nlet out; try { out = 'v' + (%s); } catch (e) { out = 'caught:' + (e && (e as any).name); } String(out).slice(0, 60)" % (setup, expr))
             meta.append(("deep-structure", "%s D=%d" % (nm, d)))
